@@ -270,3 +270,37 @@ pub fn gen_description() -> &'static str {
     let p = gen::new(Box::new(GenImpl { log: l }));
     p.get_description()
 }
+
+pub fn gen_only_service(log: SharedLog) -> VarlinkService {
+    VarlinkService::new(VENDOR, "service A", VERSION, URL, vec![Box::new(gen::new(Box::new(GenImpl { log })))])
+}
+
+pub fn script_only_service(log: SharedLog) -> VarlinkService {
+    VarlinkService::new(VENDOR, "service B", VERSION, URL, vec![Box::new(ScriptIface { log })])
+}
+
+/// A resolver for the bridge tests (bindings from varlink_stdinterfaces).
+pub struct Resolver {
+    pub map: std::collections::HashMap<String, String>,
+}
+
+pub const RESOLVER_VENDOR: &str = "verif resolver";
+
+impl varlink_stdinterfaces::org_varlink_resolver::VarlinkInterface for Resolver {
+    fn get_info(&self, call: &mut dyn varlink_stdinterfaces::org_varlink_resolver::Call_GetInfo) -> varlink::Result<()> {
+        let mut ifs: Vec<String> = self.map.keys().cloned().collect();
+        ifs.sort();
+        call.reply(RESOLVER_VENDOR.into(), "resolver".into(), "1".into(), "http://r".into(), ifs)
+    }
+    fn resolve(&self, call: &mut dyn varlink_stdinterfaces::org_varlink_resolver::Call_Resolve, interface: String) -> varlink::Result<()> {
+        match self.map.get(&interface) {
+            Some(a) => call.reply(a.clone()),
+            None => call.reply_interface_not_found(interface),
+        }
+    }
+}
+
+pub fn resolver_service(map: std::collections::HashMap<String, String>) -> VarlinkService {
+    VarlinkService::new(RESOLVER_VENDOR, "resolver", "1", "http://r",
+        vec![Box::new(varlink_stdinterfaces::org_varlink_resolver::new(Box::new(Resolver { map })))])
+}
